@@ -8,6 +8,7 @@
 #                      pool-stressing program must give byte-identical protocol lines on all of them
 import json
 import os
+import re
 
 from lib import vlib
 
@@ -211,6 +212,54 @@ def t_traceback(rng):
                          "emit(debug.traceback('msg', 1))\n" % (d, d))
 
 
+def gc_program(rng):
+    """finalisers observed through emit, made deterministic by limited contexts (a context's finalisers run when it ends):
+    tables with __gc created, re-marked (with / without __gc, nil), also across nested contexts; contexts ended normally,
+    by error or killed.  Needs the runtime library, so the noquotas build is not compared.  Finalisers do not compare
+    their argument with the original (see known finding C14-finalizer-argument-is-a-clone)."""
+    src = ["local function fin(name) return {__gc = function(x) emit('gc', name, x.tag) end} end"]
+    cnt = [0]
+    live = []      # global names of every value created so far (any context)
+
+    def fresh(p):
+        cnt[0] += 1
+        return "%s%d" % (p, cnt[0])
+
+    def body(depth, ind):
+        for _ in range(1 + rng.below(4)):
+            r = rng.below(100)
+            if r < 35:
+                v = fresh("v")
+                src.append("%s%s = setmetatable({tag = '%s'}, fin('%s'))" % (ind, v, v, fresh("f")))
+                live.append(v)
+            elif r < 60 and live:
+                v = rng.choice(live)
+                how = rng.below(5)
+                if how < 3:
+                    src.append("%ssetmetatable(%s, fin('%s'))" % (ind, v, fresh("f")))
+                elif how == 3:
+                    src.append("%ssetmetatable(%s, {})" % (ind, v))
+                else:
+                    src.append("%ssetmetatable(%s, nil)" % (ind, v))
+            elif r < 85 and depth < 3:
+                kind = rng.choice(["ok", "ok", "error", "kill"])
+                src.append("%sdo local ctx = runtime.callcontext({kill = {cpu = 1000000}}, function()" % ind)
+                body(depth + 1, ind + "  ")
+                if kind == "error":
+                    src.append("%s  error('boom')" % ind)
+                elif kind == "kill":
+                    src.append("%s  runtime.killcontext()" % ind)
+                src.append("%send) emit(ctx.status) end" % ind)
+            else:
+                src.append("%semit('%s')" % (ind, fresh("m")))
+    src.append("runtime.callcontext({kill = {cpu = 10000000}}, function()")
+    body(1, "  ")
+    body(1, "  ")
+    src.append("end)")
+    src.append("emit('end')")
+    return "gc-contexts", "\n".join(src) + "\n"
+
+
 def t_tbc_errors(rng):
     """to-be-closed variables whose handlers look at the stack (debug.traceback inside __close while the function
     returns), fail, or have lost their __close metamethod when the scope/function is left: the error paths in which a
@@ -326,7 +375,7 @@ def run(tier, seed):
                 ck.case(l.split(" ", 1)[1], any(o.startswith("gr") for o in outs))
                 ck.count("hook:" + mode)
                 hdr = l.split(" ")
-                size10 = (mode == "cont") or int(hdr[2], 16) >= 10
+                size10 = True      # regpool.go loops to the pool's own length since the WithRegPoolSize repair: a panic is a failure for any size
                 for o in outs:
                     ck.count("hook-outcome:" + o.split(":")[0])
                     # property-level predicate on the Go output alone: what a get returns is zeroed and of the right size
@@ -386,21 +435,30 @@ def run(tier, seed):
                      {"kind": "build", "configuration": name, "stderr": excluded[name]}, no_input=True)
     ck.log("configurations built: %s" % sorted(bins))
     programs = []
+    skip = {}           # program index -> configurations that cannot run it (noquotas has no runtime library)
     corpus = os.path.join(vlib.VERIF, "corpus", "C14")
     if os.path.isdir(corpus):
         for fn in sorted(os.listdir(corpus)):
             if fn.endswith(".lua"):
-                programs.append(("corpus:" + fn, open(os.path.join(corpus, fn)).read()))
+                src = open(os.path.join(corpus, fn)).read()
+                m = re.match(r"--\s*configs:\s*(.*)", src)
+                if m:
+                    skip[len(programs)] = set(x[1:] for x in m.group(1).split() if x.startswith("!"))
+                programs.append(("corpus:" + fn, src))
     reps = 12 if tier == "quick" else 150
     for t in TEMPLATES:
         for _ in range(reps):
             programs.append(t(rng))
-    nrand = 1200 if tier == "quick" else 20000
+    nrand = 1000 if tier == "quick" else 20000
     for _ in range(nrand):
         programs.append(rand_program(rng))
+    ngc = 150 if tier == "quick" else 3000
+    for _ in range(ngc):
+        skip[len(programs)] = {"noquotas"}
+        programs.append(gc_program(rng))
     lines = [lua_line("P%d" % i, src) for i, (_, src) in enumerate(programs)]
     # the C01 language stream (lib/gen_lua.ProgramGen, the generator of the LuaCore comparison): broad language coverage
-    nlang = 400 if tier == "quick" else 6000
+    nlang = 300 if tier == "quick" else 6000
     lang_cases = []
     try:
         from lib import gen_lua
@@ -458,12 +516,19 @@ def run(tier, seed):
                              {"kind": "Go!=S", "engine": "lua", "source": src, "default": base[i][:2000]})
             continue
         for name in bins:
-            if name == "default":
+            if name == "default" or name in skip.get(i, ()):
                 continue
             o = outs[name][i] if i < len(outs[name]) else "<missing>"
             if o.endswith(" SKIPPED"):
                 continue
             if o != base[i]:
+                tf = lambda l: ([t for t in l.split(" ") if t.startswith("T:")] or [l])[0]
+                kf = ck.known_match(lambda k: k.get("match", {}).get("program") == kind and k["match"].get("configuration") == name
+                                    and k["match"].get("default_trace") == tf(base[i]) and k["match"].get("other_trace") == tf(o))
+                if kf is not None:
+                    ck.known_finding(kf)
+                    ck.count("known:" + kf["id"])
+                    continue
                 cross_fail += 1
                 ck.count("cross-difference:" + name)
                 if cross_fail <= 3:
